@@ -31,6 +31,9 @@ thread_local! {
     /// > 0 while code runs under `catch_unwind` on behalf of the system under test; a panic
     /// outside is a harness bug and is printed by the panic hook.
     pub static IN_GUARDED: std::cell::Cell<u32> = const { std::cell::Cell::new(0) };
+    /// Source file of the most recent panic (set by the panic hook): tells a panic raised by the
+    /// crate under test (`/repo/...`) from one raised by the simulator's own code.
+    pub static LAST_PANIC_FILE: std::cell::RefCell<String> = const { std::cell::RefCell::new(String::new()) };
 }
 
 pub enum Caught {
@@ -730,13 +733,25 @@ impl<E: Elem> Engine<E> {
                     }
                 }
             }
-            Op::FromView { win, mutable } => {
-                let (win, mutable) = (*win, *mutable);
+            Op::FromView { win, mutable, via_into, inner } => {
+                let (win, mutable, via_into, inner) = (*win, *mutable, *via_into, *inner);
                 verdict = if self.model.win_is_n1(win) {
                     Verdict::Skip
                 } else if self.model.win_ok(win) {
-                    m2 = self.model.sub(win);
-                    Verdict::Accept
+                    let outer = self.model.sub(win);
+                    match inner {
+                        None => {
+                            m2 = outer;
+                            Verdict::Accept
+                        }
+                        // zero-extent windows of windows are left to the single-level case (N1)
+                        Some(iw) if outer.cols == 0 || (outer.win_ok(iw) && (iw.start.0 == iw.end.0 || iw.start.1 == iw.end.1)) => Verdict::Skip,
+                        Some(iw) if outer.win_ok(iw) => {
+                            m2 = outer.sub(iw);
+                            Verdict::Accept
+                        }
+                        Some(_) => Verdict::Reject,
+                    }
                 } else {
                     Verdict::Reject
                 };
@@ -748,7 +763,23 @@ impl<E: Elem> Engine<E> {
                     let arr = &mut self.arr;
                     let slot = &mut new_arr;
                     run!(|| {
-                        let n: TooDee<E> = if mutable { TooDee::from(arr.view_mut(win.start, win.end)) } else { TooDee::from(arr.view(win.start, win.end)) };
+                        let n: TooDee<E> = match (mutable, inner) {
+                            (false, None) => TooDee::from(arr.view(win.start, win.end)),
+                            (false, Some(iw)) => {
+                                let v = arr.view(win.start, win.end);
+                                TooDee::from(v.view(iw.start, iw.end))
+                            }
+                            (true, None) if via_into => TooDee::from(toodee::TooDeeView::from(arr.view_mut(win.start, win.end))),
+                            (true, None) => TooDee::from(arr.view_mut(win.start, win.end)),
+                            (true, Some(iw)) => {
+                                let mut v = arr.view_mut(win.start, win.end);
+                                if via_into {
+                                    TooDee::from(toodee::TooDeeView::from(v.view_mut(iw.start, iw.end)))
+                                } else {
+                                    TooDee::from(v.view_mut(iw.start, iw.end))
+                                }
+                            }
+                        };
                         *slot = Some(n);
                         Ok(())
                     });
